@@ -104,6 +104,38 @@ def forge(s, rho, z, h, m, ctx, mode, t1fill=0):
     return pk, sig, valid
 
 
+def _mont_reduce(a):
+    """the crate's mont_reduce on exact integers (i32 wrapping multiply, arithmetic shift)"""
+    def w32(x):
+        x &= 0xFFFFFFFF
+        return x - (1 << 32) if x >= (1 << 31) else x
+    t = w32(w32(a) * 58728449)
+    return (a - t * R.Q) >> 32
+
+
+def limb_max_poly(bound, sgn=1):
+    """polynomial with 9 non-zero coefficients, all of magnitude <= bound, whose forward transform as the crate computes it
+    (no reduction between layers) leaves about sgn * (bound + 8 * q/2) in slot 0: coefficient 128 >> k is the only partner of
+    slot 0 in layer k and is chosen so that its Montgomery product with that layer's zeta is as close to sgn * q/2 as its range allows"""
+    z = [0] * 256
+    z[0] = sgn * bound
+    for k in range(8):
+        zm = (R.ZETAS[1 << k] << 32) % R.Q
+        zinv = pow(R.ZETAS[1 << k], R.Q - 2, R.Q)
+        best = None
+        for d in range(0, 4000):
+            target = sgn * ((R.Q - 1) // 2 - d)
+            w = R.modpm(target * zinv, R.Q)
+            if abs(w) <= bound:
+                t = _mont_reduce(zm * w)
+                if best is None or sgn * t > sgn * best[1]:
+                    best = (w, t)
+                if sgn * t > (R.Q // 2) - 4200:
+                    break
+        z[128 >> k] = best[0] if best else 0
+    return z
+
+
 def rand_z(rng, p, bound):
     return [[rng.randrange(-bound, bound + 1) for _ in range(256)] for _ in range(p['l'])]
 
@@ -147,6 +179,14 @@ def forgery_family(rng, s, n_random=2):
     out.append(('hint positions 0 and 255', rand_z(rng, p, lim - 1), hh))
     for _ in range(n_random):
         out.append(('random in-range', rand_z(rng, p, lim - 1), rand_h(rng, p, rng.randrange(0, p['omega'] + 1))))
+    # responses built to push one slot of the crate's *unreduced* forward transform to its maximum (input + eight Montgomery
+    # products of about q/2 each, above 4q): the envelope that to_mont / partial_reduce64 / the accumulation must cover
+    for sgn in (1, -1):
+        lp = limb_max_poly(lim - 1, sgn)
+        z = [list(x) for x in base]
+        z[0] = lp
+        z[p['l'] - 1] = [-c for c in lp]
+        out.append((f'NTT-limb-maximising response (slot 0 beyond {"+" if sgn > 0 else "-"}4q)', z, zero_h))
     # full-magnitude vectors (stress the lazily reduced arithmetic)
     out.append(('all coefficients = lim-1', [[lim - 1] * 256 for _ in range(p['l'])], zero_h))
     out.append(('alternating +-(lim-1)', [[(lim - 1) * (1 if (j + i) % 2 else -1) for j in range(256)] for i in range(p['l'])], zero_h))
